@@ -31,8 +31,9 @@ theorem gen_beat_reencode_partial (bs : Bytes) (hb : bs.length < 922337203685477
 theorem gen_ovw_reencode_partial (bs : Bytes) (hb : bs.length < 9223372036854775808) (v : Ovw) (extra : Bytes)
     (h : decodeOvw bs = .ok (v, extra)) : encodeOvw v extra = .ok bs := by
   rw [decodeOvw_eq_partial bs hb] at h
-  have h4 := C04_v2_ovw_reencode bs v extra h
-  rw [Impl.V2.decodeOvw_eq, liftDec_ok_iff] at h
+  have hm : bs.length < maxCount := by unfold maxCount; exact hb
+  have h4 := C04_v2_ovw_reencode bs hm v extra h
+  rw [Impl.V2.decodeOvw_eq bs hm, liftDec_ok_iff] at h
   have hv := (ovw_exact _ _ _ h).1
   have he : bs = ovw.enc v ++ extra := (ovw_exact _ _ _ h).2
   rw [gen_encodeOvw_eq_hand_partial v hv extra (by rw [← he]; exact hb)]; exact h4
